@@ -25,7 +25,8 @@ TS_RE = re.compile(r"^\d{4}-\d{2}-\d{2}T\d{2}:\d{2}:\d{2}(\.\d{3}|\.\d{6}|\.\d{9
 LEVEL = "model_checking"
 SCHEMA = Schema("vfc15", (), (
     Msg("TD", (Field("t", 1, "timestamp", "optional"), Field("d", 2, "duration", "optional"),
-               Field("ts", 3, "timestamp"), Field("ds", 4, "duration"))),
+               Field("ts", 3, "timestamp"), Field("ds", 4, "duration"),
+               Field("many", 5, "timestamp", "repeated"), Field("by", 6, "timestamp", "map", key="string"))),
 ))
 _S: Dict[str, Any] = {}
 US = timedelta(microseconds=1)
@@ -233,6 +234,29 @@ def check_timestamp(us: int, off_min: int, t: Tally) -> List[Violation]:
         t.inc("edges")
         if back != dt:
             bad("json-in", f"from_dict({want_js!r}) gives {back!r}")
+        if off_min:
+            # RFC 3339 text with a numeric offset (legal proto3 JSON input; the reference is the
+            # arbiter of what instant it denotes)
+            text = dt.strftime("%Y-%m-%dT%H:%M:%S") + (".%06d" % dt.microsecond if dt.microsecond else "")
+            text += "%s%02d:%02d" % ("+" if off_min > 0 else "-", abs(off_min) // 60, abs(off_min) % 60)
+            chk = ref.cls("TD")()
+            try:
+                json_format.ParseDict({"t": text}, chk)
+                ref_reads = (chk.t.seconds, chk.t.nanos)
+            except json_format.ParseError:
+                ref_reads = None
+            if ref_reads is not None:
+                if ref_reads != want:
+                    raise HarnessError(f"reference reads {text!r} as {ref_reads}, integer model says {want}")
+                for key, fn in (("t", "t"), ("many", "many"), ("by", "by")):
+                    payload = {"t": text} if key == "t" else {"many": [text]} if key == "many" else {"by": {"k": text}}
+                    got_m = bp.TD().from_dict(payload)
+                    t.inc("edges")
+                    got_dt = got_m.t if key == "t" else got_m.many[0] if key == "many" else got_m.by["k"]
+                    if got_dt != dt or av.ts_parts(got_dt) != want:
+                        bad("json-in-offset", f"from_dict({payload!r}) gives {got_dt!r}: {av.ts_parts(got_dt)}, the reference reads {want}")
+    except HarnessError:
+        raise
     except Exception as e:
         bad("json", f"{type(e).__name__}: {e}")
     return out
